@@ -142,8 +142,11 @@ def run(prog, tier) -> Result:
     sum_case([x, y, z], None, x.rf + y.rf + z.rf, "three items, no start")
     sum_case([x, y], s0, s0.rf + x.rf + y.rf, "two items with start")
     sum_case([], s0, s0.rf, "empty with start")
+    sum_case([x], s0, s0.rf + x.rf, "one item with start")
+    sum_case([x, y, z], s0, s0.rf + x.rf + y.rf + z.rf, "three items with start")
+    sum_case([x, y], None, x.rf + y.rf, "two items, no start")
 
     res.require("R03.1", 60 - 12 * absent)
     res.require("R03.2", 18 - 3 * min(absent, 1))
-    res.require("R03.3", 5)
+    res.require("R03.3", 8)
     return res
